@@ -9,7 +9,9 @@
 // Input (ndjson, written by lib/props/C03.py from spec/Framing behaviours and the byte corpus):
 //   {"def":{"sid":"c2","hex":"3c3f...","s":{"n":..,"elems":[..],"chars":[..],"sync":[..]}}}
 //        defines a stream (s = its description for spec/FramingTrace.tla, atoms = bytes); the
-//        one-read reference execution "<sid>/ref" is run immediately
+//        one-read reference execution "<sid>/ref" is run immediately. Large streams come with coarse
+//        atoms: "at":[byte offset of the end of every atom]; all their cuts must be atom boundaries
+//        (explicit "cuts" jobs only) and Read.n / End.pos are logged in atoms ("nb" = bytes).
 //   {"sid":"c2","cuts":[17,40],"src":"tlc"}      one execution with exactly these cut offsets
 //   {"sid":"c2","gen":"all2"[,"from":a,"to":b]}  every 2-way split (every byte offset [in a..b])
 //   {"sid":"c2","gen":"bytes"}                   one byte at a time
@@ -96,6 +98,24 @@ struct StreamDef {
     QByteArray bytes;
     QJsonObject model;
     QVector<int> sync;
+    QVector<int> atomEnds;  // empty: an atom of the description is a byte; else byte offset of the end of every atom
+
+    // number of atoms of bytes (from, to]; -1 if a boundary is not an atom boundary
+    int atoms(int from, int to) const
+    {
+        if (atomEnds.isEmpty()) {
+            return to - from;
+        }
+        auto idx = [this](int p) {
+            if (p == 0) {
+                return 0;
+            }
+            auto it = std::lower_bound(atomEnds.begin(), atomEnds.end(), p);
+            return it != atomEnds.end() && *it == p ? int(it - atomEnds.begin()) + 1 : -1;
+        };
+        const int a = idx(from), b = idx(to);
+        return a < 0 || b < 0 ? -1 : b - a;
+    }
 };
 
 struct Delivery {
@@ -113,7 +133,12 @@ void lingerZero(QSslSocket *s)
 }
 
 // hang detector only (the machine may be heavily loaded); exceeding it is a harness failure, exit 2
-constexpr int HangMs = 20000;
+constexpr int HangMs = 60000;
+// A chunk larger than this does not arrive in one piece over TCP. To keep "chunk = read" the socket's
+// signals are blocked while the chunk is in flight (the bytes pile up in the socket's own buffer, the
+// wrapper is not told) and readyRead is emitted once when all of it is there.
+constexpr int GateBytes = 4096;
+constexpr int ShowChars = 400;  // canonical XML kept in the trace (the digest covers all of it)
 
 struct Runner {
     Ctx &ctx;
@@ -185,33 +210,53 @@ struct Runner {
             const int to = cuts[i];
             got.clear();
             rr = 0;
+            const bool gated = to - from > GateBytes;
+            if (gated) {
+                sock->blockSignals(true);
+            }
             peer.write(def.bytes.mid(from, to - from));
             written += to - from;
-            ok = qxvSpin([&] { return consumed >= written && sock->bytesAvailable() == 0; }, HangMs);
+            if (gated) {
+                ok = qxvSpin([&] { return consumed + sock->bytesAvailable() >= written || sock->state() != QAbstractSocket::ConnectedState; }, HangMs) &&
+                    consumed + sock->bytesAvailable() == written;
+                sock->blockSignals(false);
+                if (ok) {
+                    Q_EMIT sock->readyRead();  // the one read of this chunk
+                }
+            }
+            ok = ok && qxvSpin([&] { return consumed >= written && sock->bytesAvailable() == 0; }, HangMs);
+            const int natoms = def.atoms(from, to);
+            if (natoms < 0) {
+                fprintf(stderr, "framing: %s: cut %d/%d is not an atom boundary of the description\n", qPrintable(caseId), from, to);
+                ok = false;
+            }
             QJsonArray dl;
             for (const auto &g : got) {
                 QJsonObject o { { "k", g.k }, { "d", g.d } };
                 if (verbose || isRef) {
-                    o["x"] = g.x;
+                    o["x"] = g.x.size() > ShowChars ? g.x.left(ShowChars) + QString(" ...(%1 chars)").arg(g.x.size()) : g.x;
                 }
                 dl.append(o);
                 g.k == "null" ? ++nulls : ++nd;
                 if (g.k != "null") {
-                    lastDelivered << (g.k == "close" ? QString("close") : g.k + " " + g.x);
+                    lastDelivered << (g.k == "close" ? QString("close") : g.k + " " + g.d + " " + g.x.left(ShowChars));
                 }
             }
             QJsonObject o { { "nd", nd }, { "nulls", nulls }, { "rr", rr } };
             if (!ok) {
                 o["stall"] = true;
             }
-            ctx.emit_({ { "e", "Read" }, { "n", to - from }, { "dl", dl }, { "o", o } });
+            if (gated) {
+                o["gated"] = true;
+            }
+            ctx.emit_({ { "e", "Read" }, { "n", natoms }, { "nb", to - from }, { "dl", dl }, { "o", o } });
             from = to;
         }
         if (ok) {
             // nothing may be delivered without input: let posted events run once and look again
             got.clear();
             QCoreApplication::processEvents();
-            ctx.emit_({ { "e", "End" }, { "o", QJsonObject { { "pos", int(consumed) }, { "nd", nd }, { "late", int(got.size()) } } } });
+            ctx.emit_({ { "e", "End" }, { "o", QJsonObject { { "pos", def.atoms(0, int(consumed)) }, { "bytes", int(consumed) }, { "nd", nd }, { "late", int(got.size()) } } } });
         }
         QObject::disconnect(sock, nullptr, nullptr, nullptr);
         lingerZero(sock);
@@ -246,7 +291,16 @@ QXV_DRIVER(framing)
             for (const auto &v : def.model["sync"].toArray()) {
                 def.sync.append(v.toInt());
             }
-            if (def.bytes.size() != def.model["n"].toInt() || def.bytes.isEmpty()) {
+            for (const auto &v : d["at"].toArray()) {
+                def.atomEnds.append(v.toInt());
+            }
+            if (!def.atomEnds.isEmpty()) {
+                // restart positions of the description are atom indices: the peer needs byte offsets
+                for (auto &p : def.sync) {
+                    p = p >= 1 && p <= def.atomEnds.size() ? def.atomEnds[p - 1] : 0;
+                }
+            }
+            if (def.atoms(0, def.bytes.size()) != def.model["n"].toInt() || def.bytes.isEmpty()) {
                 fprintf(stderr, "framing: stream %s: description does not match the bytes\n", qPrintable(def.sid));
                 return 2;
             }
